@@ -25,7 +25,7 @@ A = decoders.J9_ALPHABET
 def cases(ctx):
     rng = ctx.rng
     yield {"kind": "exhaustive"}
-    nrt, nmal = ctx.per_shard(ctx.pick(60000, 2500000)), ctx.per_shard(ctx.pick(40000, 800000))
+    nrt, nmal = ctx.per_shard(ctx.pick(60000, 12000000)), ctx.per_shard(ctx.pick(40000, 4000000))
     for i in range(max(nrt, nmal)):
         if i < nrt:
             yield {"kind": "rt", "seed": rng.getrandbits(32)}
